@@ -50,6 +50,58 @@ impl<'tcx> rustc_middle::ty::TypeVisitor<TyCtxt<'tcx>> for RegionNames {
 }
 use std::collections::{HashMap, HashSet, VecDeque};
 
+/// Regions standing in a *brand position* of a type: the lifetime argument of a local ADT in which that
+/// parameter is invariant (Gc<'gc, ..>, Mutation<'gc>, ..), or a lifetime argument of a projection on / a reference
+/// to a local trait (<R as Rootable<'gc>>::Root). 'static and erased regions are left out.
+struct BrandRegions<'tcx> {
+    tcx: TyCtxt<'tcx>,
+    found: std::collections::BTreeSet<String>,
+}
+
+impl<'tcx> BrandRegions<'tcx> {
+    fn note(&mut self, r: rustc_middle::ty::Region<'tcx>) {
+        match r.kind() {
+            rustc_middle::ty::ReStatic | rustc_middle::ty::ReErased => {}
+            k => {
+                self.found.insert(format!("{:?}", k));
+            }
+        }
+    }
+}
+
+impl<'tcx> rustc_middle::ty::TypeVisitor<TyCtxt<'tcx>> for BrandRegions<'tcx> {
+    fn visit_ty(&mut self, t: Ty<'tcx>) {
+        use rustc_middle::ty::TypeSuperVisitable;
+        match t.kind() {
+            ty::Adt(def, args) if def.did().is_local() => {
+                let vs = self.tcx.variances_of(def.did());
+                for (i, a) in args.iter().enumerate() {
+                    if let GenericArgKind::Lifetime(r) = a.kind() {
+                        if vs.get(i).map_or(false, |v| matches!(v, ty::Variance::Invariant)) {
+                            self.note(r);
+                        }
+                    }
+                }
+            }
+            ty::Alias(at) => {
+                let local_trait = match at.kind {
+                    ty::AliasTyKind::Projection { def_id } => self.tcx.parent(def_id).is_local(),
+                    _ => false,
+                };
+                if local_trait {
+                    for a in at.args.iter() {
+                        if let GenericArgKind::Lifetime(r) = a.kind() {
+                            self.note(r);
+                        }
+                    }
+                }
+            }
+            _ => {}
+        }
+        t.super_visit_with(self);
+    }
+}
+
 struct Cb;
 
 impl rustc_driver::Callbacks for Cb {
@@ -767,6 +819,34 @@ impl<'tcx> Dumper<'tcx> {
             }
             v.push(("in_regions", J::Arr(rin.0.iter().map(|s| J::s(s.clone())).collect())));
             v.push(("out_regions", J::Arr(rout.0.iter().map(|s| J::s(s.clone())).collect())));
+            // brand provenance: regions in brand positions of the inputs / of the output / of the argument types of
+            // the function's own (not higher-ranked) closure bounds
+            {
+                use rustc_middle::ty::TypeVisitable;
+                let mut bin = BrandRegions { tcx, found: Default::default() };
+                for t in sig.inputs().iter() {
+                    t.visit_with(&mut bin);
+                }
+                let mut bout = BrandRegions { tcx, found: Default::default() };
+                o.visit_with(&mut bout);
+                let mut bfn = BrandRegions { tcx, found: Default::default() };
+                let preds = tcx.predicates_of(did).instantiate_identity(tcx);
+                for (clause, _sp) in preds.into_iter() {
+                    let clause = clause.skip_norm_wip();
+                    if let ty::ClauseKind::Trait(tp) = clause.kind().skip_binder() {
+                        let li = tcx.lang_items();
+                        let d = tp.trait_ref.def_id;
+                        if Some(d) == li.fn_once_trait() || Some(d) == li.fn_mut_trait() || Some(d) == li.fn_trait() {
+                            for a in tp.trait_ref.args.iter().skip(1) {
+                                a.visit_with(&mut bfn);
+                            }
+                        }
+                    }
+                }
+                v.push(("in_brands", J::Arr(bin.found.iter().map(|s| J::s(s.clone())).collect())));
+                v.push(("out_brands", J::Arr(bout.found.iter().map(|s| J::s(s.clone())).collect())));
+                v.push(("fn_bound_brands", J::Arr(bfn.found.iter().map(|s| J::s(s.clone())).collect())));
+            }
             v.push(("vis", J::s(format!("{:?}", tcx.visibility(did)))));
             v.push(("pub", J::Bool(tcx.visibility(did).is_public())));
             if let Some(ld) = did.as_local() {
